@@ -214,3 +214,22 @@ package clickhouse_transpiler
 //@   ensures min: a.Fn == "min" ==> result1 == nil && typeis(result0, "*sql.RawObject") && unbox(result0, "*sql.RawObject").val == "minIf(agg_val, isNotNull(agg_val))"
 //@   ensures sum: a.Fn == "sum" ==> result1 == nil && typeis(result0, "*sql.RawObject") && unbox(result0, "*sql.RawObject").val == "sumIf(agg_val, isNotNull(agg_val))"
 //@   ensures other-aggregators-rejected: a.Fn != "count" && a.Fn != "avg" && a.Fn != "max" && a.Fn != "min" && a.Fn != "sum" ==> result1 != nil
+
+// Tag search with a selector that has no condition - `{}`, what a tag browser sends
+// before anything is typed - lists all tags: the attribute-condition planner is only
+// built around a condition (its Process walks the condition tree; on a nil tree it
+// dereferences nil in the request handler, which has no recover, and the client gets
+// a closed connection instead of a response).
+//@ func (*simpleExpressionPlanner).check
+//@   modifies nothing
+//@ func (*simpleExpressionPlanner).analyze
+//@   modifies fields(p), allocated
+//@ func NewInitIndexPlanner
+//@   modifies nothing
+//@ func (*simpleExpressionPlanner).tagsV2Planner [C12]
+//@   flag checks=-index,-assert
+//@   check a-selector-without-condition-lists-all-tags: result1 == nil && isnil(p.cond) ==> typeis(result0, "*AllTagsRequestPlanner")
+//@   check the-condition-planner-gets-a-condition: result1 == nil && typeis(result0, "*SelectTagsPlanner") ==> typeis(unbox(result0, "*SelectTagsPlanner").Main, "*AttrConditionPlanner") && !isnil(unbox(unbox(result0, "*SelectTagsPlanner").Main, "*AttrConditionPlanner").Conds)
+//@ func (*simpleExpressionPlanner).valuesV2Planner [C12]
+//@   flag checks=-index,-assert
+//@   check a-selector-without-condition-lists-all-values: result1 == nil && isnil(p.cond) ==> typeis(result0, "*AllValuesRequestPlanner")
